@@ -167,6 +167,11 @@ pub open spec fn slice_ok(s: &str, a: int, b: int) -> bool {
     && vstd::utf8::is_char_boundary(s.spec_bytes(), a)
     && vstd::utf8::is_char_boundary(s.spec_bytes(), b)
 }
+/// `s.chars().take(n).collect::<String>()`: the first n characters (all of them when there are fewer); never panics
+#[verifier::external_body]
+pub fn str_take_chars(s: &str, n: usize) -> (r: String)
+    ensures r@ == s@.subrange(0, if (n as int) < s@.len() { n as int } else { s@.len() as int })
+{ s.chars().take(n).collect::<String>() }
 /// `s.get(a..b)`: the slice when the range is in bounds and on character boundaries, None otherwise (never panics)
 #[verifier::external_body]
 pub fn str_get<'a>(s: &'a str, a: usize, b: usize) -> (r: Option<&'a str>)
@@ -585,6 +590,8 @@ pub fn any_arg() -> AnyArg { unimplemented!() }
 #[verifier::external_body] pub fn cat6(p0: &str, p1: &str, p2: &str, p3: &str, p4: &str, p5: &str) -> (r: String) ensures r@ == p0@ + p1@ + p2@ + p3@ + p4@ + p5@ { [p0, p1, p2, p3, p4, p5].concat() }
 #[verifier::external_body] pub fn cat7(p0: &str, p1: &str, p2: &str, p3: &str, p4: &str, p5: &str, p6: &str) -> (r: String) ensures r@ == p0@ + p1@ + p2@ + p3@ + p4@ + p5@ + p6@ { [p0, p1, p2, p3, p4, p5, p6].concat() }
 #[verifier::external_body] pub fn cat8(p0: &str, p1: &str, p2: &str, p3: &str, p4: &str, p5: &str, p6: &str, p7: &str) -> (r: String) ensures r@ == p0@ + p1@ + p2@ + p3@ + p4@ + p5@ + p6@ + p7@ { [p0, p1, p2, p3, p4, p5, p6, p7].concat() }
+#[verifier::external_body] pub fn cat9(p0: &str, p1: &str, p2: &str, p3: &str, p4: &str, p5: &str, p6: &str, p7: &str, p8: &str) -> (r: String) ensures r@ == p0@ + p1@ + p2@ + p3@ + p4@ + p5@ + p6@ + p7@ + p8@ { [p0, p1, p2, p3, p4, p5, p6, p7, p8].concat() }
+#[verifier::external_body] pub fn cat10(p0: &str, p1: &str, p2: &str, p3: &str, p4: &str, p5: &str, p6: &str, p7: &str, p8: &str, p9: &str) -> (r: String) ensures r@ == p0@ + p1@ + p2@ + p3@ + p4@ + p5@ + p6@ + p7@ + p8@ + p9@ { [p0, p1, p2, p3, p4, p5, p6, p7, p8, p9].concat() }
 
 // ---------------------------------------------------------------- reordering operations: only the length is specified
 // (a contract that depends on element order cannot be proved across them, which is the intended, conservative effect)
